@@ -102,8 +102,8 @@ Lcs == /\ Ev("lcs") /\ phase \in {"feeding", "running"} /\ HasAnon
        /\ UNCHANGED <<case, chain, ft, base, nin, p, emap, amap, cmap, viol, kfUsed>>
 
 End == /\ Ev("end")
-       /\ \/ phase \in {"feeding", "running"} /\ \A q \in (p + 1)..nin : Droppable(q)
-          \/ phase = "panicked"
+       /\ IF phase = "panicked" THEN TRUE
+          ELSE phase \in {"feeding", "running"} /\ {q \in (p + 1)..nin : ~Droppable(q)} = {}    \* a state predicate: no branching
        /\ phase' = "ended"
        /\ UNCHANGED <<case, chain, ft, base, nin, p, emap, amap, cmap, viol, kfUsed>>
 
